@@ -1402,7 +1402,84 @@ def build_polyploid_ties(rng, d, params):
     return jobs
 
 
-BUILDERS = {"polyploid-ties": build_polyploid_ties, "input-forms": build_input_forms, "misc": build_misc, "split-ties": build_split_ties, "block-ties": build_block_ties, "ped-coverage": build_ped_coverage, "ped-changes": build_ped_changes, "diploid": build_diploid, "polyploid": build_polyploid, "linked-stress": build_linked_stress,
+def build_polyploid_prephasing(rng, d, params):
+    """polyphase --use-prephasing with a MIX of pre-phased and unphased samples in one run: every sample's reads form
+    two groups that share a single SNV (an ambiguous joint which the pre-phasing resolves), error-free, 8x per
+    haplotype; pre-phased samples list their true haplotypes in a random order in one phase set per chromosome.
+    Sample names come from pools so that the iteration order of a set of them depends on the hash seed."""
+    os.makedirs(d, exist_ok=True)
+    ploidy = params.get("ploidy", 4)
+    nsamples = params.get("nsamples", 2)
+    nchrom = params.get("nchrom", 1)
+    nvar = params.get("nvars", 10)
+    joint = params.get("joint", nvar // 2)          # index of the SNV shared by the two read groups
+    pool = ["parentA", "parentB", "P1", "P2", "mother", "father", "clone7", "cv_Desiree", "cv_Altus", "S", "T", "sampleX"]
+    samples = rng.sample(pool, nsamples)
+    prephased = set(params.get("prephased_idx", [1]))
+    chroms = [f"chr{x}" for x in rng.sample(["1", "2", "5", "X"], nchrom)]
+    spacing = 40
+    L = 100 + spacing * nvar + 200
+    ref, variants = {}, {}
+    for c in chroms:
+        ref[c] = synth.random_seq(rng, L)
+        variants[c] = [synth.Variant(100 + spacing * i, ref[c][100 + spacing * i],
+                                     rng.choice([b for b in "ACGT" if b != ref[c][100 + spacing * i]]), "snv")
+                       for i in range(nvar)]
+    sc = synth.Scenario(ref, variants, samples, {x: {c: [(0, 1)] * nvar for c in chroms} for x in samples})
+    reff = synth.write_fasta(sc, os.path.join(d, "ref.fa"))
+    lines = synth.vcf_header(sc)
+    reads = []
+    for c in chroms:
+        haps = {}
+        for x in samples:
+            hs = [[0] * nvar for _ in range(ploidy)]
+            for v in range(nvar):
+                while True:
+                    col = [rng.randint(0, 1) for _ in range(ploidy)]
+                    if 0 < sum(col) < ploidy:
+                        break
+                for h in range(ploidy):
+                    hs[h][v] = col[h]
+            haps[x] = hs
+        order = {x: rng.sample(range(ploidy), ploidy) for x in samples}
+        for v, var in enumerate(variants[c]):
+            cols = []
+            for k, x in enumerate(samples):
+                al = [haps[x][h][v] for h in range(ploidy)]
+                if k in prephased:
+                    cols.append("|".join(str(al[h]) for h in order[x]) + f":{variants[c][0].pos + 1}")
+                else:
+                    cols.append("/".join(str(a) for a in sorted(al)) + ":.")
+            lines.append(f"{c}\t{var.pos + 1}\t.\t{var.ref}\t{var.alt}\t.\tPASS\t.\tGT:PS\t" + "\t".join(cols))
+        p = [v.pos for v in variants[c]]
+        groups = [(p[0] - 40, p[joint] + 20), (p[joint] - 20, p[-1] + 40)]
+        for x in samples:
+            for h in range(ploidy):
+                for gi, (a, b) in enumerate(groups):
+                    for k in range(params.get("coverage", 8)):
+                        seq, cig = synth.hap_walk(ref[c], variants[c], haps[x][h], a + k, b + k)
+                        reads.append(dict(name=f"{x}_{c}_h{h}_g{gi}_{k}", sample=x, chrom=c, start=a + k, cigar=cig, seq=seq,
+                                          qual=40, hap=h, flag=0))
+    vcf = os.path.join(d, "in.vcf")
+    with open(vcf, "w") as fh:
+        fh.write("\n".join(lines) + "\n")
+    bam = write_bam_rg(sc, reads, os.path.join(d, "reads.bam"), {}, None)
+    feat = dict(nsamples=nsamples, ploidy=ploidy, nchrom=nchrom, prephased_samples=len(prephased & set(range(nsamples))),
+                unphased_samples=nsamples - len(prephased & set(range(nsamples))), mixed_prephasing=True,
+                order_names=list(samples))
+    P = str(ploidy)
+    jobs = [Job("polyphase-use-prephasing-mixed", "polyphase", ["--ploidy", P, "--use-prephasing", "--reference", reff, "-o",
+                                                                 "{out}/out.vcf", vcf, bam],
+                {"vcf": ("out.vcf", "text")}, dims=("threads",), feat=dict(feat, options="--use-prephasing")),
+            Job("polyphase-use-prephasing-mixed-B", "polyphase", ["--ploidy", P, "--use-prephasing", "-B",
+                                                                   str(rng.choice([0, 1, 2])), "-o", "{out}/out.vcf", vcf, bam],
+                {"vcf": ("out.vcf", "text")}, dims=("threads",), feat=dict(feat, options="--use-prephasing -B (no reference)")),
+            Job("polyphase-no-prephasing-mixed", "polyphase", ["--ploidy", P, "--reference", reff, "-o", "{out}/out.vcf", vcf, bam],
+                {"vcf": ("out.vcf", "text")}, dims=("threads",), feat=dict(feat, options="(pre-phased input ignored)"))]
+    return jobs
+
+
+BUILDERS = {"polyploid-prephasing": build_polyploid_prephasing, "polyploid-ties": build_polyploid_ties, "input-forms": build_input_forms, "misc": build_misc, "split-ties": build_split_ties, "block-ties": build_block_ties, "ped-coverage": build_ped_coverage, "ped-changes": build_ped_changes, "diploid": build_diploid, "polyploid": build_polyploid, "linked-stress": build_linked_stress,
             "shared-barcode": build_shared_barcode, "undeclared-info": build_undeclared_info}
 
 
